@@ -22,7 +22,7 @@ KINDS = {
 }
 MID = {"Mid": {"type": "string", "enum": ["x", "y"]}}
 NODEFAULT = object()
-DEFAULTS = [NODEFAULT, None, False, True, 0, 0.0, 5, -0.0, "", "x", [], ["a"], {}, {"k": 1}]
+DEFAULTS = [NODEFAULT, None, False, True, 0, 0.0, 5, -0.0, 1e-20, 0.5, 1e-310, "", "x", " ", [], ["a"], [[]], {}, {"k": 1}]     # zero, and what is nearly zero
 
 def points():
     out = []
